@@ -221,6 +221,35 @@ class Interp:
         self.g = zand(self.g, lit)
         return b
 
+    def realise(self, v):
+        """Path-wise mode: replace a symbolic name/bool by a concrete value, one solver-pruned case per value."""
+        if isinstance(v, Sym):
+            if not self.forking:
+                raise Unsupported("symbolic %s needed concretely (merged mode)" % v.kind)
+            if v.kind == "bool":
+                return self.decide(v.z)
+            if v.kind == "name":
+                k = 0
+                while k < len(self.intern.names):        # the table may grow while we iterate
+                    if self.decide(v.z == self.mkint(k)):
+                        return self.intern.names[k]
+                    k += 1
+                return "zzForeign"
+            raise Unsupported("cannot realise a symbolic %s" % v.kind)
+        if isinstance(v, Alt):
+            for g, x in v.alts:
+                if self.decide(g):
+                    return self.realise(x)
+            raise DeadPath()
+        if isinstance(v, list):
+            for i, x in enumerate(v):
+                if has_sym(x):
+                    v[i] = self.realise(x)
+            return v
+        if isinstance(v, tuple):
+            return tuple(self.realise(x) if has_sym(x) else x for x in v)
+        return v
+
     def guarded_do(self, cond, fn):
         """Run fn() under (g and cond); afterwards continue under g (merged) / the decided side (path-wise)."""
         if self.forking:
@@ -446,6 +475,9 @@ class Interp:
         if isinstance(fn, type) and issubclass(fn, BaseException):
             return fn(*args, **kwargs)      # exception objects only store their arguments
         # native call on concrete arguments only
+        if self.forking and not getattr(fn, "__self__", None).__class__ in NATIVE_OK_SELF:
+            args = [self.realise(a) if has_sym(a) else a for a in args]
+            kwargs = {k: (self.realise(a) if has_sym(a) else a) for k, a in kwargs.items()}
         for a in list(args) + list(kwargs.values()):
             if has_sym(a) and not getattr(fn, "__self__", None).__class__ in NATIVE_OK_SELF:
                 raise Unsupported("native call %r with symbolic argument" % (fn,))
@@ -480,7 +512,10 @@ class Interp:
                 return
             self.stats["stmts"] += 1
             try:
-                getattr(self, "s_" + type(s).__name__)(s, fr)
+                h = getattr(self, "s_" + type(s).__name__, None)
+                if h is None:
+                    raise Unsupported("statement %s" % type(s).__name__)
+                h(s, fr)
             except DeadPath:
                 del self.frames[depth[0]:]
                 del self.loops[depth[1]:]
@@ -539,6 +574,10 @@ class Interp:
             obj = self.concrete(self.ev(t.value, fr), "container")
             idx = self.ev(t.slice, fr)
             if isinstance(obj, dict):
+                if self.forking and has_sym(idx):
+                    idx = self.realise(idx)
+                    obj[idx] = v
+                    return
                 idx = self.concrete(idx, "dict key")
                 old = obj.get(idx, _UNBOUND)
                 if old is _UNBOUND and not z3.is_true(self.g):
@@ -785,7 +824,10 @@ class Interp:
 
     # ---------- expressions
     def ev(self, n, fr):
-        v = getattr(self, "e_" + type(n).__name__)(n, fr)
+        h = getattr(self, "e_" + type(n).__name__, None)
+        if h is None:
+            raise Unsupported("expression %s" % type(n).__name__)
+        v = h(n, fr)
         if z3.is_false(self.g):
             raise DeadPath()
         return v
@@ -817,6 +859,69 @@ class Interp:
             return getattr(builtins, n.id)
         self.raise_(NameError(n.id))
         return None
+
+    def _hashable(self, k):
+        if has_sym(k):
+            if not self.forking:
+                raise Unsupported("symbolic value used as a dict/set key")
+            return self.realise(k)
+        return k
+
+    def e_Dict(self, n, fr):
+        out = {}
+        for k, v in zip(n.keys, n.values):
+            if k is None:
+                out.update(self.concrete(self.ev(v, fr), "mapping"))
+            else:
+                out[self._hashable(self.ev(k, fr))] = self.ev(v, fr)
+        return self.born(out)
+
+    def e_Set(self, n, fr):
+        return self.born({self._hashable(self.ev(e, fr)) for e in n.elts})
+
+    def _comp(self, n, fr, emit):
+        if len(n.generators) != 1:
+            raise Unsupported("nested comprehension")
+        gen = n.generators[0]
+        it = self.concrete(self.ev(gen.iter, fr), "iterable")
+        if isinstance(it, (SymDict, GuardedLog)):
+            raise Unsupported("comprehension over a symbolic container")
+        sub = Frame(fr.fn, dict(fr.locals))
+        for item in list(it):
+            self.assign(gen.target, item, sub)
+            keep = True
+            for cond in gen.ifs:
+                t = self.truth(self.ev(cond, sub))
+                if z3.is_expr(t):
+                    if not self.forking:
+                        raise Unsupported("symbolic filter in comprehension")
+                    t = self.decide(z3.simplify(t))
+                if not t:
+                    keep = False
+                    break
+            if keep:
+                emit(sub)
+
+    def e_DictComp(self, n, fr):
+        out = {}
+        self._comp(n, fr, lambda sub: out.__setitem__(self._hashable(self.ev(n.key, sub)), self.ev(n.value, sub)))
+        return self.born(out)
+
+    def e_SetComp(self, n, fr):
+        out = set()
+        self._comp(n, fr, lambda sub: out.add(self._hashable(self.ev(n.elt, sub))))
+        return self.born(out)
+
+    def e_GeneratorExp(self, n, fr):
+        out = []
+        self._comp(n, fr, lambda sub: out.append(self.ev(n.elt, sub)))
+        return self.born(out)
+
+    def e_Starred(self, n, fr):
+        raise Unsupported("starred expression outside a call")
+
+    def e_Lambda(self, n, fr):
+        raise Unsupported("lambda")
 
     def e_Tuple(self, n, fr):
         return tuple(self.ev(e, fr) for e in n.elts)
@@ -1153,22 +1258,8 @@ class Interp:
         return self.ite(c, a, b)
 
     def e_ListComp(self, n, fr):
-        if len(n.generators) != 1:
-            raise Unsupported("nested comprehension")
-        gen = n.generators[0]
-        items = list(self.concrete(self.ev(gen.iter, fr), "iterable"))
         out = []
-        sub = Frame(fr.fn, dict(fr.locals))
-        for item in items:
-            self.assign(gen.target, item, sub)
-            keep = True
-            for cond in gen.ifs:
-                t = self.truth(self.ev(cond, sub))
-                if z3.is_expr(t):
-                    raise Unsupported("symbolic filter in comprehension")
-                keep = keep and t
-            if keep:
-                out.append(self.ev(n.elt, sub))
+        self._comp(n, fr, lambda sub: out.append(self.ev(n.elt, sub)))
         return self.born(out)
 
 
